@@ -19,6 +19,64 @@ from .core import (Ctx, PathAbort, Inconclusive, EngineUnsupported, EngineNondet
 _ORIG = {}
 
 
+class _MemoModel:
+    """
+    Pure-Python model of `functools.lru_cache(maxsize=None)` on a method (self, duration), installed for symbolic paths only.
+    The real C cache finds an entry only if the *hashes* of the keys agree, so a literal 0.0 of the library and a symbolic
+    duration that may equal 0.0 would silently miss each other (DESIGN 3.3, mixed keys).  The model keeps, per link object
+    (links carry a unique identifier, so link equality is identity), the list of (duration, value) entries and compares
+    durations with `==`, i.e. a solver-decided fork.  The concrete twin of every path runs the real lru_cache.
+    """
+    def __init__(self, real):
+        self.real = real
+        self.fn = real.__wrapped__
+        self.entries = {}
+        self.__wrapped__ = self.fn
+
+    def __get__(self, obj, objtype=None):
+        if obj is None:
+            return self
+        import functools
+        return functools.partial(self.__call__, obj)
+
+    def __call__(self, link, duration):
+        lst = self.entries.setdefault(id(link), (link, []))[1]
+        for d, v in lst:
+            if d is duration or d == duration:
+                return v
+        v = self.fn(link, duration=duration)
+        lst.append((duration, v))
+        return v
+
+    def cache_clear(self):
+        self.entries.clear()
+        self.real.cache_clear()
+
+    def cache_info(self):
+        return self.real.cache_info()
+
+
+def install_memo_model(on: bool):
+    """Symbolic paths run with the memo model, concrete runs with the real lru_cache."""
+    try:
+        from qce_circuit.structure.intrf_circuit_operation import RelationLink, MultiRelationLink
+    except Exception:
+        return
+    for cls in (RelationLink, MultiRelationLink):
+        cur = cls.__dict__.get('get_start_time')
+        key = ('memo', cls.__name__)
+        if on:
+            if isinstance(cur, _MemoModel):
+                cur.cache_clear()
+                continue
+            if hasattr(cur, 'cache_clear') and hasattr(cur, '__wrapped__') and getattr(cur, 'cache_parameters', lambda: {})().get('maxsize', 0) is None:
+                _ORIG[key] = cur
+                setattr(cls, 'get_start_time', _MemoModel(cur))
+        else:
+            if isinstance(cur, _MemoModel):
+                setattr(cls, 'get_start_time', cur.real)
+
+
 def reset_env():
     """Each path models a fresh process: memo caches cleared, global registry getter restored."""
     os.environ.setdefault('TQDM_DISABLE', '1')
@@ -104,6 +162,7 @@ class JobResult:
 
 
 def run_concrete(run_fn: Callable, params: dict, model: dict, choices: list) -> Ctx:
+    install_memo_model(False)
     reset_env()
     ctx = Ctx('conc', model=model, choices=choices)
     with warnings.catch_warnings():
@@ -125,6 +184,7 @@ def explore_job(run_fn: Callable, params: dict, max_paths: int = 20000, max_seco
             res.errors.append(f"budget exceeded after {res.paths} paths / {time.perf_counter() - t0:.0f}s (inconclusive)")
             break
         prefix = stack.pop()
+        install_memo_model(True)
         reset_env()
         ctx = Ctx('sym', prefix=prefix, solver=solver, stats=stats)
         completed = False
@@ -243,6 +303,7 @@ def explore_job(run_fn: Callable, params: dict, max_paths: int = 20000, max_seco
 
 def _replay_until_crash(run_fn, params, v) -> bool:
     """Concrete replay where the harness itself crashes after the violated check: inspect the checks made before the crash."""
+    install_memo_model(False)
     reset_env()
     ctx = Ctx('conc', model=v.model, choices=v.choices)
     try:
